@@ -159,10 +159,10 @@ def dose_table(e):
     for n in ast.walk(e):
         if isinstance(n, ast.Compare):
             for side in [n.left] + n.comparators:
-                if isinstance(side, ast.Subscript) and isinstance(side.slice, ast.Constant) and side.slice.value == "dose" and isinstance(side.value, ast.Name):
-                    return side.value.id
-                if isinstance(side, ast.Attribute) and side.attr == "dose" and isinstance(side.value, ast.Name):
-                    return side.value.id
+                if isinstance(side, ast.Subscript) and isinstance(side.slice, ast.Constant) and side.slice.value == "dose":
+                    return side.value.id if isinstance(side.value, ast.Name) else f"({U(side.value)})"
+                if isinstance(side, ast.Attribute) and side.attr == "dose":
+                    return side.value.id if isinstance(side.value, ast.Name) else f"({U(side.value)})"
     return None
 
 
@@ -279,9 +279,15 @@ def r4(ctx):
         env = scope_env(stmts)
         cols = column_stores(stmts)
         for st in stmts:
+            spar = enclosing_map(st)
             for n in ast.walk(st):
-                if isinstance(n, (ast.Assign,)) and isinstance(n.value, ast.BinOp) and any(isinstance(x, ast.Call) and (attr_tail(x) == "cumsum" or call_name(x) == "np.cumsum") for x in ast.walk(inline(n.value, env))):
-                    e = inline(n.value, env)
+                arith = (ast.Add, ast.Sub, ast.Mult, ast.Div, ast.FloorDiv)
+                if isinstance(n, ast.BinOp) and isinstance(n.op, arith) and not (isinstance(spar.get(n), ast.BinOp) and isinstance(spar[n].op, arith)):
+                    tables = {x.value.id for x in ast.walk(n) if isinstance(x, ast.Attribute) and x.attr == "index" and isinstance(x.value, ast.Name)}
+                    tenv = {k: v for k, v in env.items() if k not in tables}
+                    e = inline(n, tenv)
+                    if not any(isinstance(x, ast.Call) and (attr_tail(x) == "cumsum" or call_name(x) == "np.cumsum") for x in ast.walk(e)):
+                        continue
                     # the table is the object whose .index is used
                     T = None
                     for x in ast.walk(e):
@@ -289,7 +295,7 @@ def r4(ctx):
                             T = x.value.id
                     if T is None:
                         continue
-                    e2 = subst_columns(e, {k: v for k, v in cols.items() if k[1] == "is_control"}, env)
+                    e2 = subst_columns(e, {k: v for k, v in cols.items() if k[1] == "is_control"}, tenv)
                     cum = [x for x in ast.walk(e2) if isinstance(x, ast.Call) and (attr_tail(x) == "cumsum" or call_name(x) == "np.cumsum")]
                     pred = cum[0].func.value if attr_tail(cum[0]) == "cumsum" and not call_name(cum[0]).startswith("np.") else cum[0].args[0]
                     want = N.key(parse_expr(f"{T}.index - PRED.cumsum()"))
@@ -303,7 +309,7 @@ def r4(ctx):
                                 x.func = ast.Attribute(value=ast.Name(id="PRED", ctx=ast.Load()), attr="cumsum", ctx=ast.Load())
                                 x.args = []
                     is_pred = dose_table(pred) is not None or U(pred).endswith("is_control")
-                    found.append((U(n.value), N.key(e3) == want and is_pred, h.site()))
+                    found.append((U(n), N.key(e3) == want and is_pred, h.site()))
     if not found:
         raise AnalysisError(f"{f.site()}: no `index - cumsum(...)` renumbering found in the encoder or its helpers - density of the ids is undecided")
     ctx.check("R4", f"{f.site()}::rank-formula", any(x[1] for x in found), "new_index = position - cumsum(is_control)  (rank among non-controls)",
